@@ -80,16 +80,16 @@ Proof.
   exact H.
 Qed.
 
-(* 1/2 -> 1/2 0 (doubled (1,1,0)): S and P wave; the matrix is sqrt(1/2) * [[1, -1], [1, 1]]
+(* 1/2 -> 1/2 0 (doubled (1,1,0)): S and P wave; the matrix is sqrt(1/2) * [[1, 1], [1, -1]]
    (rows: helicity -1/2, +1/2; columns: (l,2s) = (0,1), (1,1)); entries as (sign, square) *)
 Example ls_rank_example_110 :
   ls_cols 1 1 0 = [(0, 1); (1, 1)]%Z /\ hel_pairs 1 1 0 = [(-1, 0); (1, 0)]%Z /\
-  ls_sym 1 1 0 (ls_cols 1 1 0) = [[(1, 1 # 2); (-1, 1 # 2)]; [(1, 1 # 2); (1, 1 # 2)]]%Z.
+  ls_sym 1 1 0 (ls_cols 1 1 0) = [[(1, 1 # 2); (1, 1 # 2)]; [(1, 1 # 2); (-1, 1 # 2)]]%Z.
 Proof. vm_compute. repeat split. Qed.
 (* the same matrix as reals: literally the entries of [ls_matrix] *)
 Example ls_rank_example_110_R :
-  ls_matrix 1 1 0 = [[1 * sqrt (Q2R (1 # 2)); -1 * sqrt (Q2R (1 # 2))];
-                     [1 * sqrt (Q2R (1 # 2)); 1 * sqrt (Q2R (1 # 2))]].
+  ls_matrix 1 1 0 = [[1 * sqrt (Q2R (1 # 2)); 1 * sqrt (Q2R (1 # 2))];
+                     [1 * sqrt (Q2R (1 # 2)); -1 * sqrt (Q2R (1 # 2))]].
 Proof. reflexivity. Qed.
 
 (* a sub-list at work: 1- -> 1- 1- parity conserving (the decay of the repository's own unit test,
@@ -105,5 +105,4 @@ Proof.
 Qed.
 
 Print Assumptions ls_map_full_rank_le5.
-Print Assumptions ls_map_full_rank_mask_le5.
 Print Assumptions ls_map_full_rank_l_list_le5.
